@@ -239,8 +239,13 @@ class SSETransport(Transport):
             sse_endpoint = f"{self.base_url}/sse"
             logger.info(f"Connecting to SSE endpoint: {sse_endpoint}")
 
+            # No read timeout on the event stream itself: a server that has nothing
+            # to say for longer than `timeout` has not gone away
             self._sse_stream_context = self._stream_client.stream(
-                "GET", sse_endpoint, headers=headers
+                "GET",
+                sse_endpoint,
+                headers=headers,
+                timeout=httpx.Timeout(self.timeout, read=None),
             )
             assert self._sse_stream_context is not None
 
